@@ -2056,6 +2056,9 @@ func (ls *LState) Resume(th *LState, fn *LFunction, args ...LValue) (ResumeState
 	if ls.Status(th) == "normal" {
 		return ResumeError, newApiErrorS(ApiErrorRun, "can not resume a normal thread"), nil
 	}
+	if !resumeNests(ls) {
+		return ResumeError, newApiErrorS(ApiErrorRun, "C stack overflow"), nil
+	}
 	if th.started && th.stack.IsEmpty() {
 		// the body was a Go function and it has yielded: nothing of it is left to run, so it returns
 		// what this resume passes and the coroutine is dead (as in resumeThread)
